@@ -268,7 +268,7 @@ def run(ctx):
         else:
             pricing_root = list(amt)[0][:-2]
             r6.site("payout amount ⊢ %s" % list(amt)[0])
-        if not inf or not all(re.match(r"^C:haloswap::asset::PairInfoRaw::query_pools@%s:bb\d+\[[01]\]\.info$" % re.escape(swap.path), x) for x in inf):
+        if not inf or not all(re.match(r"^C:haloswap::asset::PairInfoRaw::query_pools@%s:bb\d+\[[01*]\]\.info$" % re.escape(swap.path), x) for x in inf):
             r6.fail("C02.R6:asset-origin", swap.path, where, "payout asset ⊢ %s, expected the info of one of the pair's own pools" % sorted(inf))
         else:
             r6.site("payout asset ⊢ pools[k].info")
